@@ -244,6 +244,7 @@ func runC10(c *Ctx) {
 	c.Note("anchors", map[string]string{"listenerSet_owner": short(a.owner), "start_function": short(a.startFn), "run_config": short(a.runCfg), "reload_functions": names(a.callers)})
 	ruleValidate(c, a)
 	ruleKeepOld(c, a, "KEEPOLD")
+	ruleCommitAfterStart(c, a, "KEEPOLD")
 	rulePropagate(c, a)
 	ruleFresh(c, a)
 	ruleRelease(c, a)
